@@ -35,6 +35,8 @@ pub struct Violation {
     pub replay: Value,
     #[serde(default)]
     pub shrink_execs: u64,
+    #[serde(default)]
+    pub minimised: bool,
 }
 
 #[derive(Clone, Debug, Serialize, Deserialize, Default)]
@@ -305,7 +307,8 @@ pub fn run_check(check: &dyn Check, cfg: &RunCfg) -> i32 {
     let wall = t0.elapsed().as_secs_f64();
 
     // violations: group by signature, deterministic choice (lowest scenario index)
-    viol.sort_by(|a, b| (a.1.signature.as_str(), a.0).cmp(&(b.1.signature.as_str(), b.0)));
+    // per signature: prefer a minimised instance, then the lowest scenario index
+    viol.sort_by(|a, b| (a.1.signature.as_str(), !a.1.minimised, a.0).cmp(&(b.1.signature.as_str(), !b.1.minimised, b.0)));
     let known = load_known(&cfg.verif);
     let mut by_sig: BTreeMap<String, (u64, Violation, u64)> = BTreeMap::new();
     for (n, v) in viol {
